@@ -36,6 +36,7 @@ package fschannel
 //@   ensures [all-accounted] result1 == nil ==> result0 == len(p)
 //@   ensures [written-or-newline] result1 == nil ==> fwritten - old(fwritten) <= len(p) && len(p) - (fwritten - old(fwritten)) <= nrenames - old(nrenames)
 //@   ensures [size] result1 == nil ==> rfOK(f)
+//@   callpre Write: caller.f.pos + len(b) <= caller.f.maxSize || caller.f.pos == 0
 //@   modifies *
 //@   loop 1: invariant suffixof(p, old(p)) && rfOK(f)
 //@   loop 1: invariant [ends-with-newline] len(p) == 0 || p[len(p)-1] == '\n'
